@@ -99,7 +99,7 @@ func (m *MemStore) SetRaw(path string, b []byte) {
 type Engine struct {
 	Store  *MemStore
 	Client int
-	Root   string // URI prefix stripped from paths (e.g. "mem://lake/")
+	Root   string // URI prefix stripped from paths (e.g. "file:///lake/")
 	Hook   Interposer
 }
 
@@ -107,11 +107,11 @@ var _ storage.Engine = (*Engine)(nil)
 
 // NewEngine returns a storage.Engine for client over store.
 func NewEngine(store *MemStore, client int, hook Interposer) *Engine {
-	return &Engine{Store: store, Client: client, Root: "mem://lake/", Hook: hook}
+	return &Engine{Store: store, Client: client, Root: "file:///lake/", Hook: hook}
 }
 
 // RootURI is the lake root all harness lakes use.
-func RootURI() *storage.URI { return storage.MustParseURI("mem://lake") }
+func RootURI() *storage.URI { return storage.MustParseURI("file:///lake") }
 
 func (e *Engine) rel(u *storage.URI) string {
 	s := u.String()
